@@ -95,11 +95,15 @@ theorem pushNone_bl {b : B} {path dt n md} (hg : GoodH b dt n md) (ha : At path 
     obtain ⟨hn, cname, cdt, cn, cmd, rfl, hsel⟩ := hsh
     have ht := hg.tot
     simp only [total, totalF, Bool.and_eq_true] at ht
-    have hd : defOK cdt cmd = true ∧ noDefU cdt = true := by
+    have hd : defOK cdt cmd = true ∧ ((k : Int) ≤ 1 ∨ noDefU cdt = true) := by
       have := ht.2
       rw [← hn, hsome] at this
       simpa [defOKF, noDefUF] using this
-    obtain ⟨el', he, _⟩ := pushDefaultK_totalH el k cdt cn cmd hw.2.2 hsel hd.1 (fun h => by rw [hd.2] at h; cases h)
+    simp only [room] at hcap
+    obtain ⟨el', he, _⟩ := pushDefaultK_totalH el k cdt cn cmd hw.2.2 hsel hd.1 (fun h => by
+      rcases hd.2 with h' | h'
+      · omega
+      · rw [h] at h'; cases h')
     rw [he]
     exact Bl.of_ok _
   | struct p len v fs cached next seen =>
